@@ -255,6 +255,76 @@ theorem pkt_depkt_roundtrip_partial (c : PkCfg) (hc : AlignedCfg c) (ins : List 
   · rw [hm]
     exact deframe_frame_ahead c hc _ _ hend (by simp [hdrWords])
 
+/-- Non-vacuity (dw = 8, 2-byte header `a1 b2`): a contract-abiding producer, a consumer that stalls during the
+    header; the delivered stream is header bytes, then the payload with `last` at the end; through the
+    Depacketizer every payload beat comes back with header `0xb2a1`. -/
+example :
+    let c : PkCfg := ⟨1, 2⟩
+    let i (d : Nat) (l rdy : Bool) : In HBeat := ⟨true, ⟨⟨d, 0xb2a1⟩, false, l⟩, rdy⟩
+    let ins := [i 0x11 false true, i 0x11 false false, i 0x11 false true, i 0x11 false true, i 0x22 true true]
+    AlignedCfg c ∧ Compliant (packetizer c) (packetizer c).init none ins ∧
+    (packetizer c).delivered (packetizer c).init ins =
+      [⟨0xa1, false, false⟩, ⟨0xb2, false, false⟩, ⟨0x11, false, false⟩, ⟨0x22, false, true⟩] ∧
+    Compliant (pkdpk c) (pkdpk c).init none ins ∧
+    (pkdpk c).delivered (pkdpk c).init ins =
+      [⟨⟨0x11, 0xb2a1⟩, false, false⟩, ⟨⟨0x11, 0xb2a1⟩, false, false⟩, ⟨⟨0x22, 0xb2a1⟩, false, true⟩] := by
+  refine ⟨⟨by decide, by decide, by decide⟩, compliant_of_B _ _ _ _ (by decide), by decide,
+    compliant_of_B _ _ _ _ (by decide), by decide⟩
+
+/-- Negative witness, finding C16-packetizer-unaligned-single-beat (dw = 16, 3-byte header `a1 b2 c3`): a
+    single-beat packet `0x2211` is emitted as `b2a1, 11c3+last` again and again and is never accepted. -/
+example :
+    let c : PkCfg := ⟨2, 3⟩
+    let ins : List (In HBeat) := List.replicate 4 ⟨true, ⟨⟨0x2211, 0xc3b2a1⟩, false, true⟩, true⟩
+    (packetizer c).delivered (packetizer c).init ins =
+      [⟨0xb2a1, false, false⟩, ⟨0x11c3, false, true⟩, ⟨0xb2a1, false, false⟩, ⟨0x11c3, false, true⟩] ∧
+    (packetizer c).accepted (packetizer c).init ins = [] := by decide
+
+/-- Negative witness, finding C16-packetizer-unaligned-bubble: one cycle with `valid = 0` (lines showing
+    `0x9999`, `last = 1`) inside the packet `2211 4433 6655`: the third delivered beat carries the bubble's byte
+    and `last`; the rest of the packet is sent as a new packet. -/
+example :
+    let c : PkCfg := ⟨2, 3⟩
+    let i (v : Bool) (d : Nat) (l : Bool) : In HBeat := ⟨v, ⟨⟨d, 0xc3b2a1⟩, false, l⟩, true⟩
+    (packetizer c).delivered (packetizer c).init
+      [i true 0x2211 false, i true 0x2211 false, i false 0x9999 true, i true 0x4433 false, i true 0x6655 true,
+       i false 0 false] =
+      [⟨0xb2a1, false, false⟩, ⟨0x11c3, false, false⟩, ⟨0x3399, false, true⟩, ⟨0xb2a1, false, false⟩,
+       ⟨0x00c3, false, true⟩] := by decide
+
+/-- Negative witness, finding C16-header-shorter-than-beat (dw = 16, 1-byte header): both FSMs stay in their
+    header state. -/
+example :
+    let c : PkCfg := ⟨2, 1⟩
+    ((packetizer c).runFrom (packetizer c).init
+        (List.replicate 5 ⟨true, ⟨⟨0x2211, 0xa1⟩, false, true⟩, true⟩)).st = .hdr ∧
+    ((depacketizer c).runFrom (depacketizer c).init
+        (List.replicate 5 ⟨true, ⟨0x2211, false, true⟩, true⟩)).st = .hdr := by decide
+
+/-- Negative witness, finding C16-depacketizer-residue-end (dw = 16, 3-byte header): packet `b2a1, 11c3+last`
+    (header `a1 b2 c3` + one payload byte) followed by packet `e2d1, 21f3, 4332, 0044+last` (header `d1 e2 f3`):
+    the second packet is delivered with header `0x3221f3` and one beat short. -/
+example :
+    let c : PkCfg := ⟨2, 3⟩
+    let i (d : Nat) (l : Bool) : In Nat := ⟨true, ⟨d, false, l⟩, true⟩
+    (depacketizer c).delivered (depacketizer c).init
+      [i 0xb2a1 false, i 0x11c3 true, i 0xe2d1 false, i 0x21f3 false, i 0x4332 false, i 0x0044 true] =
+      [⟨⟨0xd111, 0xc3b2a1⟩, false, true⟩, ⟨⟨0x4443, 0x3221f3⟩, false, true⟩] := by decide
+
+/-
+  _open (not counted): the residue theorems for headers that are not a multiple of the data width
+  (`H % B ≠ 0`, `H ≥ B`), under the additional hypotheses that every packet has at least two beats and that the
+  producer keeps its data/last lines unchanged while `valid = 0`:
+
+    theorem packetizer_bytes_unaligned_open :
+      bytes (delivered) = per packet:  headerBytes H ++ payloadBytes ++ (B - H % B) padding bytes
+    theorem depacketizer_bytes_unaligned_open / pkt_depkt_roundtrip_unaligned_open
+
+  The unaligned machines are modelled bit-exactly (`pkUData`, `dpUData`, `sink_d`, `fsm_from_idle`) and are
+  covered by the exhaustive correspondence (dw = 16, H ∈ {1, 3, 5}; dw = 24/32 in the thorough tier) and by the
+  byte-stream framing monitors on the real code.
+-/
+
 /-- The framing functions are inverse to each other on whole packets (pure statement). -/
 theorem deframe_frame_eq (c : PkCfg) (hc : AlignedCfg c) (a : List (Tok HBeat)) :
     deframe c (frame c a) = annot c a := deframe_frame c hc a
